@@ -29,10 +29,10 @@ BUDGET_S = {"quick": 900, "thorough": 6000}
 
 E = (0, 1, 2)
 
-LIST_OPS = ([("assign", v) for v in ((), (0,), (1, 0), (2, 2), (0, 1, 2))]
+LIST_OPS = ([("assign", v) for v in ((), (0,), (1, 0), (2, 2), (0, 1, 2), (0, 3), (3, 1, 0))]
             + [("assign_gen", (2, 1)), ("assign_tuple", (1, 2)), ("assign_self",), ("assign_copy",)]
-            + [("iadd", (e,)) for e in E] + [("iadd", (1, 2)), ("iadd_gen", (2, 0))]
-            + [("append", e) for e in E]
+            + [("iadd", (e,)) for e in E] + [("iadd", (1, 2)), ("iadd_gen", (2, 0)), ("iadd", (3,))]
+            + [("append", e) for e in E] + [("append", 3)]
             + [("extend", (0, 1)), ("extend", (2,)), ("extend", ()), ("extend_gen", (1, 2)), ("extend_tuple", (2, 0)),
                ("extend_self",)]
             + [("insert", 0, e) for e in E] + [("insert_end", 2), ("insert", 1, 1)]
@@ -42,7 +42,7 @@ SET_OPS = ([("assign", v) for v in ((), (0,), (1, 0), (0, 1, 2))]
            + [("ior", (e,)) for e in E] + [("ior", (1, 2))]
            + [("add", e) for e in E]
            + [("update", (0, 1)), ("update", ()), ("update_gen", (1, 2)), ("update_self",)])
-CORE_LIST = [("assign", (1, 0)), ("assign_self",), ("iadd", (2,)), ("append", 0), ("append", 2), ("extend", (0, 1)),
+CORE_LIST = [("assign", (1, 0)), ("assign", (0, 3)), ("assign_self",), ("iadd", (2,)), ("iadd", (3,)), ("append", 0), ("append", 2), ("extend", (0, 1)),
              ("extend_gen", (1, 2)), ("insert", 0, 1), ("setitem", 0, 2)]
 CORE_SET = [("assign", (1, 0)), ("assign_self",), ("ior", (2,)), ("add", 0), ("add", 2), ("update", (0, 1)),
             ("update_gen", (1, 2))]
@@ -87,11 +87,11 @@ class World:
         self.field = field
         if field == "list":
             self.owner = O.VPerson("owner")
-            self.univ = [O.VCompany(f"c{i}") for i in E]
+            self.univ = [O.VCompany(f"c{i}") for i in E] + [O.VCompany("c0")]  # index 3: twin of c0 (==, same hash)
             self.fname = "member_of"
         else:
             self.owner = O.VCompany("owner")
-            self.univ = [O.VPerson(f"p{i}") for i in E]
+            self.univ = [O.VPerson(f"p{i}") for i in E] + [O.VPerson("p0")]  # index 3: twin of p0
             self.fname = "members"
         self.other = [O.VCompany("bystander"), O.VPerson("bystander_p")]
         vals = [self.univ[i] for i in init]
@@ -105,6 +105,7 @@ class World:
                     getattr(self.owner, self.fname).add(v)
         self.model = list(vals) if field == "list" else set(vals)
         self.names = {id(o): repr(o) for o in [self.owner] + self.univ + self.other}
+        self.names[id(self.univ[3])] = repr(self.univ[3]) + "'"
 
     def get(self):
         return getattr(self.owner, self.fname)
